@@ -93,6 +93,10 @@ func (i *Interpreter) Interpret(statements []ast.Stmt, isRepl bool) []interface{
 
 func (i *Interpreter) eval(expr ast.Expr, env *environment.Environment, isRepl bool) (interface{}, *ControlFlowSignal) {
 	verifTick()
+	if utils.HadRuntimeError {
+		// A runtime error has been reported: nothing else is evaluated.
+		return nil, &ControlFlowSignal{Type: ControlFlowNone, LineNumber: 0}
+	}
 	// fmt.Printf("%T\n", expr)
 	switch e := expr.(type) {
 	case *ast.PropertyAssignment:
@@ -288,6 +292,10 @@ func (i *Interpreter) eval(expr ast.Expr, env *environment.Environment, isRepl b
 			arguments = append(arguments, argValue)
 		}
 
+		if utils.HadRuntimeError {
+			return nil, &ControlFlowSignal{Type: ControlFlowNone, LineNumber: 0}
+		}
+
 		// Step 3: Call the function and return its result
 		result, err := function.Call(i, arguments)
 		if err != nil {
@@ -480,6 +488,9 @@ func (i *Interpreter) eval(expr ast.Expr, env *environment.Environment, isRepl b
 			if signal.Type == ControlFlowReturn {
 				return nil, signal // Leave the enclosing function
 			}
+			if utils.HadRuntimeError {
+				break // Stop looping after a runtime error
+			}
 		}
 		return nil, &ControlFlowSignal{Type: ControlFlowNone, LineNumber: 0}
 
@@ -513,6 +524,9 @@ func (i *Interpreter) eval(expr ast.Expr, env *environment.Environment, isRepl b
 				// Skip to the increment
 			} else if signal.Type != ControlFlowNone {
 				return nil, signal
+			}
+			if utils.HadRuntimeError {
+				break // Stop looping after a runtime error
 			}
 
 			// Execute the increment
